@@ -11,7 +11,7 @@ Corruption faults (bit flip, overwrite, shorten, wrong secrets) are judged on (a
 """
 import random
 
-from vlib import e2e, engine, gen, netsynth as ns, outparse, scene, tcpcap, tlssynth
+from vlib import e2e, engine, gen, netsynth as ns, outparse, quicsynth, scene, tcpcap, tlssynth
 
 KINDS = ["delete", "cut", "keys", "wrongkeys", "suite", "flip", "overwrite", "shorten", "noise-http", "noise-udp", "noise-udp-short"]
 UNKNOWN_SUITES = [0x0A0A, 0x0000, 0xFFFF, 0xC03C, 0x0001, 0x1306, 0x5600, 0xFAFA]
@@ -36,7 +36,7 @@ def build_scene(rng):
     vq = rng.random() < 0.4
     nb = rng.choice([1, 2, 3])
     eps = gen.distinct_eps(rng, nb + 1, rng.choice(["random", "same-client-host", "random"]))
-    victim = gen.random_quic_flow(rng, 0, ep=eps[0], napp=rng.choice([3, 6])) if vq else gen.random_tls_flow(rng, 0, ep=eps[0], nmax=6, min_records=2)
+    victim = gen.random_quic_flow(rng, 0, ep=eps[0], napp=rng.choice([3, 6, 10])) if vq else gen.random_tls_flow(rng, 0, ep=eps[0], nmax=6, min_records=2)
     flows = [victim]
     for i in range(nb):
         flows.append(gen.random_quic_flow(rng, i + 1, ep=eps[i + 1], napp=4) if rng.random() < 0.4 else gen.random_tls_flow(rng, i + 1, ep=eps[i + 1], nmax=6, min_records=1))
@@ -142,13 +142,25 @@ def eval_case(case, seed, thorough):
                     repl.append(l)
             faults.append(("victim's secrets replaced by random ones", items, ("\n".join(repl) + "\n").encode(), [], "ab"))
     elif kind == "suite":
-        if victim.kind != "tls":
-            return dict(out, v="held", nontrivial=False, units=0, msg="suite fault applies to TLS victims (QUIC ServerHello is inside a protected Initial packet)")
         for code in UNKNOWN_SUITES:
-            f2 = patch_suite(victim, vep, code, frng)
+            if victim.kind == "tls":
+                f2 = patch_suite(victim, vep, code, frng)
+                ks = keys
+                oracle = "prefix-rebased"
+            else:
+                # QUIC: the ServerHello sits inside a protected Initial packet, so the victim is rebuilt by the reference sender with the same spec
+                # but a ServerHello that announces `code` (packet protection keeps using the really negotiated suite)
+                import copy
+                sp2 = copy.deepcopy(victim.conn.spec)
+                sp2.sh_suite = code
+                qc2 = quicsynth.build_qconn(sp2, random.Random(frng.random()))
+                f2 = scene.quic_flow(qc2, vep)
+                f2.label, f2.segkind = victim.label, "dgram"
+                ks = ("\n".join([l for l in keys_lines if l not in vkeys] + list(f2.keylog)) + "\n").encode()
+                oracle = "ab-rebased"        # a new random victim: only (a) and (b) can be compared with the fault-free scene
             its = scene.merge([f2] + flows[1:], random.Random(1), "concat")
             scene.stamp(its, random.Random(2), "plain")
-            faults.append((f"ServerHello announces suite {code:#06x}", its, keys, [], "prefix-rebased"))
+            faults.append((f"ServerHello announces suite {code:#06x}", its, ks, [], oracle))
     elif kind in ("flip", "overwrite", "shorten"):
         hs_idx = vidx[:4]
         for rep in range(40 if thorough else 14):
